@@ -3,7 +3,7 @@
 # usage: tools/baseline.sh [repo_dir]
 REPO=${1:-/repo}
 OUT=$(mktemp -d /tmp/baseline.XXXXXX)
-cd "$REPO" && /venv/bin/python -m pytest -ra -q -p no:cacheprovider --timeout=900 --continue-on-collection-errors --junitxml=$OUT/junit.xml > $OUT/log.txt 2>&1
+cd "$REPO" && OMP_NUM_THREADS=${BASELINE_THREADS:-16} /venv/bin/python -m pytest -ra -q -p no:cacheprovider --timeout=900 --continue-on-collection-errors --junitxml=$OUT/junit.xml > $OUT/log.txt 2>&1
 /venv/bin/python - "$OUT/junit.xml" <<'PY'
 import json, sys, xml.etree.ElementTree as ET
 base = json.load(open('/root/.vp/BASELINE.json'))
